@@ -151,11 +151,15 @@ def ZCAT(n=3, buf=2, mx=2, two=False):     # a Concatenator between tasks: colle
         edges += [E("s2.out", "a2.in"), E("a2.out", "cc.in")]
     return dict(name="ZCAT", max=mx, bufsize=buf, procs=procs, edges=edges)
 
+def ZSPLT(n=2, buf=2, mx=2, lines=2):    # a FileSplitter behind a TASK (three-line outputs): 3 // lines + 1 parts per file, each consumed by its own task
+    return dict(name="ZSPLT", max=mx, bufsize=buf, procs=[src("s", items(n)), cmd("a", ["in"]), dict(name="sp", kind="splitter", arg=str(lines)), cmd("b", ["in"])],
+                edges=[E("s.out", "a.in"), E("a.out", "sp.file"), E("sp.split_file", "b.in")])
+
 def ZSPL(n=2, buf=2, mx=2, lines=1):     # a FileSplitter behind a file source: every (one-line) file becomes 1 // lines + 1 parts, forwarded as they are written
     return dict(name="ZSPL", max=mx, bufsize=buf, procs=[src("s", items(n)), dict(name="sp", kind="splitter", arg=str(lines)), cmd("b", ["in"])],
                 edges=[E("s.out", "sp.file"), E("sp.split_file", "b.in")])
 
-ZOO = dict(ZSPL=ZSPL, ZCAT=ZCAT, Z20=Z20, Z4T=Z4T, Z21=Z21, PC3=PC3, PC2S=PC2S, FC2=FC2, FCS=FCS, Z17=Z17, Z18=Z18, Z19=Z19, Z5c=Z5c, Z1=Z1, Z2=Z2, Z3=Z3, Z4=Z4, Z5=Z5, Z6=Z6, Z7=Z7, Z8=Z8, Z9=Z9, Z10=Z10, Z13=Z13, Z14=Z14,
+ZOO = dict(ZSPLT=ZSPLT, ZSPL=ZSPL, ZCAT=ZCAT, Z20=Z20, Z4T=Z4T, Z21=Z21, PC3=PC3, PC2S=PC2S, FC2=FC2, FCS=FCS, Z17=Z17, Z18=Z18, Z19=Z19, Z5c=Z5c, Z1=Z1, Z2=Z2, Z3=Z3, Z4=Z4, Z5=Z5, Z6=Z6, Z7=Z7, Z8=Z8, Z9=Z9, Z10=Z10, Z13=Z13, Z14=Z14,
            Z15=Z15, Z16=Z16, Z5b=Z5b)
 
 # ----------------------------------------------------------------------------
